@@ -2,6 +2,16 @@
 
 ALLV = ["B", "BC", "M", "MA", "MC"]
 
+# which variants each family is built for (default: ALLV)
+FAMILY_VARIANTS = {
+    "events_hier": ["B", "M"],          # base-class / Kleene triggers: run-time-speed policies with flat_fold only (C18 quantifier)
+    "serial_nested": ["B", "BC"],       # Boost.Serialization is offered by back / back11 only
+}
+
+
+def variants_of(family):
+    return FAMILY_VARIANTS.get(family, ALLV)
+
 
 def job(family, variants, profile, quick, thorough, san="", shards=4):
     return {"family": family, "variants": variants, "profile": profile, "quick": quick, "thorough": thorough,
